@@ -125,6 +125,31 @@ pub fn check(c: &Case) -> Vec<(&'static str, String, String)> {
                 }
             } }
         }
+        // life cycle: a member is asked about an address / a label it does not have (the answer is "nothing") immediately before it is linked
+        // with the file that has it; the very first question to the result is the same one
+        if c.files.iter().all(|f| f.0 != 3) && owns.len() >= 2 {
+            for (i, j) in [(0usize, 1usize), (1, 0)] { for as_left in [true, false] {
+                for (x, text) in &owns[j].lines {
+                    let asked = owns[i].obj.clone();
+                    if let Some(s) = asked.symbol_table() { let _ = s.rev_lookup_line(*x); }
+                    let l = if as_left { ObjectFile::link(asked, owns[j].obj.clone()) } else { ObjectFile::link(owns[j].obj.clone(), asked) };
+                    let Ok(l) = l else { continue };
+                    let (Some(sym), true) = (l.symbol_table(), true) else { continue };
+                    let got = sym.rev_lookup_line(*x).and_then(|n| sym.source_info().and_then(|si| si.read_line(n)).map(|t| t.to_string()));
+                    if got.as_deref() != Some(text.as_str()) { for p in ["C22", "C24"] { out.push((p, "asked-before-link:line".to_string(), format!("{what}: member {i} was asked rev_lookup_line(x{x:04X}) (not its address) and then linked ({}) with member {j}; the result's first answer for x{x:04X} reads {got:?}, member {j}'s line reads {text:?}", if as_left { "as left operand" } else { "as right operand" }))); } break; }
+                }
+                for name in &owns[j].labels {
+                    let asked = owns[i].obj.clone();
+                    if let Some(s) = asked.symbol_table() { let _ = s.get_label_source(name); let _ = s.lookup_label(name); }
+                    let l = if as_left { ObjectFile::link(asked, owns[j].obj.clone()) } else { ObjectFile::link(owns[j].obj.clone(), asked) };
+                    let Ok(l) = l else { continue };
+                    let Some(sym) = l.symbol_table() else { continue };
+                    let src = sym.source_info().map(|si| si.source().to_string()).unwrap_or_default();
+                    let ok = sym.get_label_source(name).and_then(|sp| src.get(sp).map(|t| t.eq_ignore_ascii_case(name))).unwrap_or(false);
+                    if !ok { out.push(("C22", "asked-before-link:label".to_string(), format!("{what}: member {i} was asked about label {name} (not its own) and then linked with member {j}; the result's first answer for its source span is {:?}", sym.get_label_source(name)))); break; }
+                }
+            } }
+        }
         Ok(out)
     });
     match r { Ok(Ok(v)) => out.extend(v), Ok(Err((s, d))) => out.push(("ALL", s, d)), Err(p) => out.push(("ALL", format!("panic:{}", panic_site(&p)), format!("{c:?}: {p}"))) }
